@@ -9,7 +9,8 @@
 (***************************************************************************)
 EXTENDS Iface
 
-Ops == {"delete", "duplicate", "swap", "truncate", "insert", "flip", "dropdefault", "rename"}
+Ops == {"delete", "duplicate", "swap", "truncate", "insert", "flip", "dropdefault", "rename", "unclose"}
+\* "unclose" takes the closing '>' off an #include (a token of its own in this model): nothing can explain such an input
 \* "dropdefault" removes the two tokens '=' <default> (a default before a non-default is a validation error);
 \* "rename" replaces one token by the identifier Zzz (an undeclared name: constructor / typedef target mismatch)
 Stray == <<"{", "}", "(", ")", "<", ">", ";", ",", "=", "::", "*", "@", "&", "class", "foo", "7", "const", ":">>
@@ -29,6 +30,7 @@ ApplyCorrupt(toks, op, i, x) ==
     [] op = "flip"      -> [toks EXCEPT ![i] = Flip(@)]
     [] op = "dropdefault" -> SubSeq(toks, 1, i - 1) \o SubSeq(toks, i + 2, n)
     [] op = "rename"    -> [toks EXCEPT ![i] = "Zzz"]
+    [] op = "unclose"   -> [toks EXCEPT ![i] = "#include <unterminated"]
 
 Applicable(toks, op, i, x) ==
   /\ op \in Ops
@@ -52,4 +54,5 @@ ASSUME \A op \in Ops, i \in 1..12, x \in 0..Len(Stray) :
              [] op = "flip" -> Len(c) = Len(Sample) /\ c # Sample
              [] op = "dropdefault" -> Len(c) = Len(Sample) - 2
              [] op = "rename" -> Len(c) = Len(Sample) /\ c[i] = "Zzz"
+             [] op = "unclose" -> Len(c) = Len(Sample) /\ c[i] = "#include <unterminated"
 =============================================================================
